@@ -127,6 +127,20 @@ func histories(cf cfgSpec, gv *genesisVariant, thorough bool) []history {
 			add("revoke-pillar", cat(rep(M, 3), []ops.Op{{K: "c05-revoke", A: 11, S: g.Pillar2Name}}, tail(3)))
 		}
 	}
+	// reorganisations at a tick boundary: the abandoned branch missed the last slot(s) of a tick (or the first of the
+	// next), the adopted one has them. The proof momentum of the following ticks lies right at the fork point.
+	for tick := 1; tick <= 2; tick++ {
+		for _, miss := range []int{1, 2} { // how many slots the abandoned branch skips
+			for _, before := range []int{0, 1} { // skipped slots end exactly at the tick boundary / one slot into the next tick
+				filled := tick*n - 1 - miss + before // momentums after genesis before the gap
+				if filled < 1 {
+					continue
+				}
+				altOps := cat(rep(M, filled), []ops.Op{{K: "M", V: int64(miss)}}, rep(M, 2))
+				hs = append(hs, history{fmt.Sprintf("tick-boundary-reorg/tick%d-miss%d-shift%d", tick, miss, before), cat(rep(M, filled+miss+3), tail(2)), altOps})
+			}
+		}
+	}
 	// quick: single changes at every position, mock genesis, short ticks; thorough: everything
 	if thorough {
 		hs = append(hs, systematic(cf, alt, true)...)
@@ -486,8 +500,12 @@ func runSchedule(c *xs.Ctx, r *xs.Result, cfi int, gv *genesisVariant, h history
 	if len(h.Alt) > 0 {
 		ab, ap := produce(c, cf, gv, h.Alt)
 		ap.Destroy()
-		if len(ab.chain) >= len(b.chain) || len(ab.chain) > 30 {
-			panic("alt history must be shorter than the main one and inside the rollback window")
+		common := 0
+		for common < len(ab.chain) && common < len(b.chain) && ab.chain[common].Momentum.Hash == b.chain[common].Momentum.Hash {
+			common++
+		}
+		if len(ab.chain) >= len(b.chain) || len(ab.chain)-common > 30 {
+			panic("alt history must be shorter than the main one and fork inside the rollback window")
 		}
 		n := newNode(c, gv, false)
 		if tryFeed("follower-on-competing-branch", n, ab.chain) {
